@@ -67,8 +67,10 @@ class TU:
         if not self.chunks:
             raise ExtractError('AST dump has no top-level declarations: ' + json_path)
         for ci, (a, b) in enumerate(self.chunks):
-            head = txt[a:a + 1500]
-            if '"kind": "NamespaceDecl"' in head and re.search(r'"name": "rlbox"', head):
+            head = txt[a:a + 8000]
+            mk = re.search(r'"kind": "(\w+)"', head)
+            mn = re.search(r'\n      "name": "(\w+)"', head)
+            if mk and mk.group(1) == 'NamespaceDecl' and mn and mn.group(1) == 'rlbox':
                 o = json.loads(txt[a:b])
                 self._chunk_cache[ci] = o
                 self.objs.append(o)
